@@ -66,7 +66,8 @@ pub fn run_xargs(ctx: &Ctx, flags: &[&str], initial: &[Vec<u8>], input: &[u8], s
 }
 
 /// `find ARGS | xargs -0 fu-recorder` through a real pipe. Returns (find status, xargs status, invocations).
-pub fn run_pipe0(ctx: &Ctx, find_args: &[String], cwd: &std::path::Path) -> (i32, i32, Vec<Invocation>) {
+/// `replace`: `xargs -0 -I{} recorder {}` (one run per path) instead of `xargs -0 recorder`
+pub fn run_pipe0(ctx: &Ctx, find_args: &[String], cwd: &std::path::Path, replace: bool) -> (i32, i32, Vec<Invocation>) {
     let dir = ctx.scratch("pipe");
     let log = dir.join("log");
     let mut f = Command::new(ctx.bin("find"));
@@ -74,7 +75,11 @@ pub fn run_pipe0(ctx: &Ctx, find_args: &[String], cwd: &std::path::Path) -> (i32
     let mut fchild = f.spawn().expect("spawn find");
     let fout = fchild.stdout.take().unwrap();
     let mut x = Command::new(ctx.bin("xargs"));
-    x.arg("-0").arg(ctx.recorder()).current_dir(cwd).env("FU_REC_LOG", &log);
+    x.arg("-0");
+    if replace { x.arg("-I{}"); }
+    x.arg(ctx.recorder());
+    if replace { x.arg("{}"); }
+    x.current_dir(cwd).env("FU_REC_LOG", &log);
     x.stdin(Stdio::from(fout)).stdout(Stdio::null()).stderr(Stdio::null());
     let xst = x.status().expect("run xargs");
     let fst = fchild.wait().expect("wait find");
